@@ -245,6 +245,68 @@ class PassShape:
             if match(f"{self.task}.id in {self.memo}", t) and not pol:
                 continue
             r['other'].append((t, pol))
+        # unit propagation over negated conjunctions: not (A and B) with A known true gives not B
+        changed = True
+        rounds = 0
+        while changed and rounds < 4:
+            changed = False
+            rounds += 1
+            for t, pol in list(r['other']):
+                core, p2 = t, pol
+                while isinstance(core, ast.UnaryOp) and isinstance(core.op, ast.Not):
+                    core, p2 = core.operand, not p2
+                if isinstance(core, ast.BoolOp) and ((isinstance(core.op, ast.And) and not p2) or (isinstance(core.op, ast.Or) and p2)):
+                    want = isinstance(core.op, ast.And)       # conjunct values that would make the compound decided the other way
+                    unknown = []
+                    for v in core.values:
+                        val = self._known(r, v)
+                        if val is None:
+                            unknown.append(v)
+                        elif val != want:
+                            unknown = None
+                            break
+                    if unknown is not None and len(unknown) == 1:
+                        r['other'].remove((t, pol))
+                        sub = self.region_of_conds([(unknown[0], not want)])
+                        for k in ('milestone', 'leaf'):
+                            if sub[k] is not None:
+                                r[k] = sub[k]
+                        r['is_none'].update(sub['is_none'])
+                        r['other'] += sub['other']
+                        changed = True
+        return r
+
+    def _known(self, r, v):
+        """truth value of atom v under region r, or None"""
+        sub = self.region_of_conds([(v, True)])
+        if sub['milestone'] is not None and r['milestone'] is not None:
+            return sub['milestone'] == r['milestone']
+        if sub['leaf'] is not None and r['leaf'] is not None:
+            return sub['leaf'] == r['leaf']
+        for a, val in sub['is_none'].items():
+            if a in r['is_none']:
+                return val == r['is_none'][a]
+        return None
+
+    def region_of_conds(self, conds):
+        r = {'milestone': None, 'leaf': None, 'is_none': {}, 'other': []}
+        for t, pol in conds:
+            tx = t
+            if isinstance(t, ast.Name):
+                tx = self.ex.expand(t, self.cfg.node_containing(t)) if self.cfg.node_containing(t) is not None else t
+            for a, p in facts.split_conj(tx, pol):
+                if match(f"{self.task}.milestone", a):
+                    r['milestone'] = p
+                elif match(f"len({self.task}.children) == 0", a) or match(f"not {self.task}.children", a):
+                    r['leaf'] = p
+                elif match(f"len({self.task}.children) > 0", a) or match(f"len({self.task}.children) != 0", a):
+                    r['leaf'] = not p
+                elif match(f"{self.task}.$a is None", a):
+                    r['is_none'][match(f"{self.task}.$a is None", a)['a']] = p
+                elif match(f"{self.task}.$a is not None", a):
+                    r['is_none'][match(f"{self.task}.$a is not None", a)['a']] = not p
+                else:
+                    r['other'].append((a, p))
         return r
 
     def stores(self, attr):
@@ -287,8 +349,17 @@ class PassShape:
         # the statement that defines it: an assignment whose value is max/min over a comprehension of <x>.<end_attr>
         for n in walk_no_nested(self.f.node):
             if isinstance(n, ast.Assign) and len(n.targets) == 1 and isinstance(n.targets[0], ast.Name):
-                args = facts.flatten_lattice(n.value, self.lat)
-                other_lat = facts.flatten_lattice(n.value, 'min' if self.lat == 'max' else 'max')
+                value = n.value
+                # max(acc) where acc is a list literal grown by one accumulate loop == max(<literal> + [comprehension])
+                if isinstance(value, ast.Call) and isinstance(value.func, ast.Name) and value.func.id in ('max', 'min') and \
+                        len(value.args) == 1 and isinstance(value.args[0], ast.Name):
+                    syn = facts.accumulated_list(self.f, value.args[0].id)
+                    if syn is not None:
+                        value = ast.Call(func=value.func, args=[syn], keywords=[])
+                        ast.copy_location(value, n.value)
+                        ast.fix_missing_locations(value)
+                args = facts.flatten_lattice(value, self.lat)
+                other_lat = facts.flatten_lattice(value, 'min' if self.lat == 'max' else 'max')
                 for kind, a in (('ok', args), ('flipped', other_lat)):
                     if not a:
                         continue
@@ -296,7 +367,7 @@ class PassShape:
                         parts = facts.comp_parts(x)
                         if parts and match(f"$t.{self.end_attr}", parts[0]) and isinstance(parts[1], ast.Name) and \
                                 match("$t." + self.end_attr, parts[0])['t'].id == parts[1].id:
-                            return {'stmt': n, 'name': n.targets[0].id, 'args': a, 'comp': x, 'parts': parts, 'kind': kind}
+                            return {'stmt': n, 'name': n.targets[0].id, 'args': a, 'comp': x, 'parts': parts, 'kind': kind, 'value': value}
         return None
 
     def collection_sources(self, iter_expr, at_node):
